@@ -6,6 +6,8 @@ import (
 	"math/big"
 	"reflect"
 	"strings"
+	"sync"
+	"sync/atomic"
 
 	"github.com/gcash/bchutil"
 
@@ -761,6 +763,72 @@ func c02compensatedCase(c *vf.Ctx, i int) {
 }
 
 // ---------------------------------------------------------------------------
+// stream "cross-prefix-concurrent": the strictness clauses while other
+// goroutines decode.  A payload P is valid under prefix X only; background
+// goroutines alternate valid decodes of X:P and of some Y:R; the foreground
+// keeps probing Y:P (checksum of X under prefix Y) and X:R, which must never
+// be accepted - whatever a decoder remembers about the last string it
+// verified, in whatever order another goroutine updates that memory.
+
+func c02concurrentCase(c *vf.Ctx, i int) {
+	r := c.R
+	net := []netInfo{allNets[0], allNets[1], allNets[4]}[i%3] // mainnet, testnet3, regtest: nets with an SLP prefix
+	X, Y := net.P.CashAddressPrefix, net.P.SlpAddressPrefix
+	if i%2 == 1 {
+		X, Y = Y, X
+	}
+	kind := [][2]int{{0x00, 20}, {0x08, 20}, {0x0b, 32}}[(i/6)%3]
+	symP := ref.Pack8to5(append([]byte{byte(kind[0])}, randHash(r, kind[1])...))
+	symR := ref.Pack8to5(append([]byte{byte(kind[0])}, randHash(r, kind[1])...))
+	bodyPx, bodyRy := ref.CashEncodeSymbols(X, symP), ref.CashEncodeSymbols(Y, symR)
+	validA, validB := X+":"+bodyPx, Y+":"+bodyRy
+	probes := []string{Y + ":" + bodyPx, X + ":" + bodyRy}
+	if c02checksumOK(Y, bodyPx) || c02checksumOK(X, bodyRy) {
+		c.Inconclusive("payload-valid-under-both-prefixes")
+		return
+	}
+	var stop atomic.Bool
+	var wg sync.WaitGroup
+	var bgErr atomic.Int64
+	for g := 0; g < 2; g++ {
+		wg.Add(1)
+		go func(g int) {
+			defer wg.Done()
+			defer func() { recover() }() // panics belong to C08
+			for k := 0; !stop.Load(); k++ {
+				s := validA
+				if (k+g)%2 == 1 {
+					s = validB
+				}
+				if _, _, err := bchutil.DecodeCashAddress(s); err != nil {
+					bgErr.Add(1)
+				}
+				if k%64 == 63 {
+					if _, err := bchutil.DecodeAddress(s, net.P); err != nil {
+						bgErr.Add(1)
+					}
+				}
+			}
+		}(g)
+	}
+	n := 1500
+	for k := 0; k < n; k++ {
+		p := probes[k%2]
+		c02verifyCash(c, "cross-prefix-concurrent", p)
+		if k%8 == 0 {
+			c02verify(c, "cross-prefix-concurrent", "cross-prefix-concurrent", "prefixed", p, net)
+		}
+	}
+	stop.Store(true)
+	wg.Wait()
+	c.Count("cross_prefix_probes_while_other_goroutines_decode", int64(n))
+	if bgErr.Load() > 0 {
+		c.Failf("DecodeCashAddress/valid-rejected-under-concurrency", "%d decodes of the valid strings %q / %q failed while other goroutines were decoding %q / %q", bgErr.Load(), validA, validB, probes[0], probes[1])
+	}
+	c.Nontrivial(vf.Mix(0xc0d, vf.HashString(validA), vf.HashString(validB)))
+}
+
+// ---------------------------------------------------------------------------
 // stream "legacy": Base58Check over all version bytes x payload lengths 0..40
 
 const c02legacyEnum = 256 * 41
@@ -1040,6 +1108,7 @@ func init() {
 			{Name: "cash", N: func(t vf.Tier) int { return c02cashEnum*t.Sz(1, 4) + t.Sz(16000, 200000) }, Run: c02cashCase},
 			{Name: "confusables", N: func(t vf.Tier) int { return t.Sz(40000, 400000) }, Run: c02confusableCase},
 			{Name: "compensated", N: func(t vf.Tier) int { return t.Sz(6000, 120000) }, Run: c02compensatedCase},
+			{Name: "cross-prefix-concurrent", Workers: 4, N: func(t vf.Tier) int { return t.Sz(360, 3600) }, Run: c02concurrentCase},
 			{Name: "bit-alias", N: func(t vf.Tier) int { return t.Sz(3000, 60000) }, Run: c02bitAliasCase},
 			{Name: "legacy", N: func(t vf.Tier) int { return c02legacyEnum + t.Sz(10000, 400000) }, Run: c02legacyCase},
 			{Name: "pubkeys", N: func(t vf.Tier) int { return 64 + t.Sz(600, 8000) }, Run: c02pubkeyCase},
